@@ -697,13 +697,17 @@ class Visitor:
             node: The node to visit.
         """
         previously_guarded = self.type_guarded
+        else_guarded = previously_guarded
         if isinstance(node.parent, (ast.Module, ast.ClassDef)):  # type: ignore[attr-defined]
             condition = safe_get_condition(node.test, parent=self.current, log_level=None)
             if str(condition) in {"typing.TYPE_CHECKING", "TYPE_CHECKING"}:
                 self.type_guarded = True
+            elif str(condition) in {"not typing.TYPE_CHECKING", "not TYPE_CHECKING"}:
+                # The `else` branch of a negated test is the one that only type checkers read.
+                else_guarded = True
         for child in ast_children(node):
             if child in node.orelse:
-                # The `else` branch is not guarded by the condition.
-                self.type_guarded = previously_guarded
+                # The `else` branch is not guarded by the condition (it is, when the condition is negated).
+                self.type_guarded = else_guarded
             self.visit(child)
         self.type_guarded = previously_guarded
